@@ -1,0 +1,56 @@
+//go:build verif
+// +build verif
+
+// Package export re-exports the internal helper packages of llir/llvm so that
+// the runtime monitors under /verif (a different module) can drive them
+// directly. It only exists with the "verif" build tag.
+package export
+
+import (
+	"github.com/llir/llvm/internal/enc"
+	"github.com/llir/llvm/internal/gep"
+	"github.com/llir/llvm/internal/natsort"
+	"github.com/llir/llvm/ir/types"
+)
+
+// --- internal/enc ---
+
+var (
+	GlobalName   = enc.GlobalName
+	GlobalID     = enc.GlobalID
+	LocalName    = enc.LocalName
+	LocalID      = enc.LocalID
+	LabelName    = enc.LabelName
+	LabelID      = enc.LabelID
+	TypeName     = enc.TypeName
+	AttrGroupID  = enc.AttrGroupID
+	ComdatName   = enc.ComdatName
+	MetadataName = enc.MetadataName
+	MetadataID   = enc.MetadataID
+	EscapeIdent  = enc.EscapeIdent
+	EscapeString = enc.EscapeString
+	Escape       = enc.Escape
+	Unescape     = enc.Unescape
+	Quote        = enc.Quote
+	Unquote      = enc.Unquote
+)
+
+// --- internal/natsort ---
+
+var (
+	NatLess    = natsort.Less
+	NatStrings = natsort.Strings
+)
+
+// --- internal/gep ---
+
+// GepIndex is gep.Index.
+type GepIndex = gep.Index
+
+// GepNewIndex is gep.NewIndex.
+func GepNewIndex(val int64) GepIndex { return gep.NewIndex(val) }
+
+// GepResultType is gep.ResultType.
+func GepResultType(elemType, src types.Type, indices []GepIndex) types.Type {
+	return gep.ResultType(elemType, src, indices)
+}
